@@ -26,12 +26,12 @@ func fld(s string) *formula { return atom("F(" + s + ")") }
 func runGcsync(c *Ctx) {
 	a := newAgg(c)
 	defer a.flush()
-	const (
-		locked  = "csync.Mutex.locked"
-		nread   = "csync.RWMutex.nreaders"
-		writing = "csync.RWMutex.writing"
-		wwait   = "csync.RWMutex.writeWaiting"
-	)
+	// the guarded fields, by role: Mutex has one bool (held); RWMutex has one bool (a writer holds) and
+	// two counters, the first counting readers that hold, the second writers that wait
+	locked := fieldByRole(c, "csync", "Mutex", isBoolType, 1, "the held flag (bool field)")
+	nread := fieldByRole(c, "csync", "RWMutex", isIntType, 1, "the reader count (first integer field)")
+	writing := fieldByRole(c, "csync", "RWMutex", isBoolType, 1, "the writer flag (bool field)")
+	wwait := fieldByRole(c, "csync", "RWMutex", isIntType, 2, "the waiting-writer count (second integer field)")
 	availW := fand(eq(nread, "0"), fnot(fld(writing)))
 	availR := fand(fnot(fld(writing)), eq(wwait, "0"))
 	type target struct {
